@@ -94,7 +94,7 @@ def ref_shape(r, known):
 
 class Msg:
     __slots__ = ('kind', 'level', 'el', 'story_ref', 'target', 'sources', 'carried',
-                 'shape_ok', 'notes', 'msg_ro_id', 'message_id', 'root')
+                 'shape_ok', 'tags_ok', 'notes', 'msg_ro_id', 'message_id', 'root')
 
     def __init__(self):
         self.kind = None
@@ -104,7 +104,8 @@ class Msg:
         self.target = ABSENT
         self.sources = []
         self.carried = []
-        self.shape_ok = True
+        self.shape_ok = True       # in the order / warning claims (C01-C06)
+        self.tags_ok = True        # required tags present, IDs possibly blank (the C12 class)
         self.notes = []
         self.msg_ro_id = None
         self.message_id = None
@@ -155,11 +156,14 @@ def interpret(root):
     m.msg_ro_id = None if rid is None else rid.text
     if rid is None:
         m.shape_ok = False
+        m.tags_ok = False
         m.notes.append('no roID')
 
-    def need(cond, note):
+    def need(cond, note, tags=True):
         if not cond:
             m.shape_ok = False
+            if tags:
+                m.tags_ok = False
             m.notes.append(note)
 
     if kind == 'roCreate':
@@ -263,9 +267,11 @@ def interpret(root):
                 need(len(m.sources) == 2, 'swap needs exactly two itemIDs')
     # carried stories / items must have usable IDs to be in claim
     if m.level == 'story' and m.carried:
-        need(all(sid(c) is not None for c in m.carried), 'carried story without ID')
+        need(all(c.find('storyID') is not None for c in m.carried), 'carried story without storyID tag')
+        need(all(sid(c) is not None for c in m.carried), 'carried story with blank ID', tags=False)
     if m.level == 'item' and m.carried:
-        need(all(iid(c) is not None for c in m.carried), 'carried item without ID')
+        need(all(c.find('itemID') is not None for c in m.carried), 'carried item without itemID tag')
+        need(all(iid(c) is not None for c in m.carried), 'carried item with blank ID', tags=False)
     return m
 
 
@@ -576,8 +582,9 @@ def judge(pre_xml, msg_xml, post_xml, outcome, warns, exc_mro=()):
         return v
 
     # ---- C12: only MosMergeError escapes for schema-shaped messages
-    if raised and m.shape_ok and not _is_merge_error(exc_mro):
-        D.append(Dev('C12', 'foreign-exception', {'exc': list(exc_mro[:2]), 'kind': m.kind}))
+    if raised and m.tags_ok and not _is_merge_error(exc_mro):
+        D.append(Dev('C12', 'foreign-exception', {'exc': list(exc_mro[:2]), 'kind': m.kind,
+                                                  'notes': list(m.notes)}))
     if raised and 'MosCompletedMergeError' in exc_mro:
         D.append(Dev('C07', 'refused-but-not-completed', {'kind': m.kind}))
 
@@ -590,6 +597,8 @@ def judge(pre_xml, msg_xml, post_xml, outcome, warns, exc_mro=()):
         v.sig = ('unshaped', m.kind, tuple(m.notes))
         if not raised:
             _generic_c03(pre, post, m, D, allow_meta=(m.level in ('meta', 'ro')))
+            if m.level in ('story', 'item') and set(m.notes) <= ABSENT_REF_NOTES:
+                _no_collateral_for_missing_reference(pre, post, m, D)
         return v
 
     # ---- envelope / C14 invariants on the post state
@@ -630,6 +639,34 @@ def judge(pre_xml, msg_xml, post_xml, outcome, warns, exc_mro=()):
         return v
     v.in_claim = False
     return v
+
+
+ABSENT_REF_NOTES = {'no storyID', 'no itemID', 'no target storyID'}
+
+
+def _is_subseq(a, b):
+    it = iter(b)
+    return all(any(x == y for y in it) for x in a)
+
+
+def _no_collateral_for_missing_reference(pre, post, m, D):
+    """C03, last sentence, for a message whose required reference TAG is missing:
+    whatever the library makes of it, no story / item that was in the running
+    order may be modified, removed, replaced or displaced (new elements may be
+    added, e.g. when a missing itemID is read as "end")."""
+    det = {'kind': m.kind, 'notes': list(m.notes), 'pre': pre.story_ids, 'post': post.story_ids}
+    if m.level == 'story':
+        if not _is_subseq(pre.story_canons, post.story_canons):
+            D.append(Dev('C03', 'missing-reference-changed-existing-stories', det))
+        return
+    if post.story_ids != pre.story_ids:
+        D.append(Dev('C03', 'missing-reference-changed-existing-stories', det))
+        return
+    for i, a, b in zip(pre.story_ids, pre.stories, post.stories):
+        if story_sig_wo_items(a) != story_sig_wo_items(b) or not _is_subseq(
+                [canon(x) for x in items_of(a)], [canon(x) for x in items_of(b)]):
+            D.append(Dev('C03', 'missing-reference-changed-existing-items', dict(det, story=i)))
+            return
 
 
 def _generic_c03(pre, post, m, D, allow_meta=False, allow_stories=False):
